@@ -40,13 +40,21 @@ def guard(fn):
         return {"err": "OtherError" if name in OTHER else name}
 
 
-def mk_psel(ps):
+def mk_psel(ps, forms=None):
+    """forms: how the same rules are written down - bare ints for singletons, lists instead of tuples,
+    multi_rules=False when no two rules share a mode"""
     if ps is None:
         return None
     if "rules" in ps:
-        p = lw.PostSelection(multi_rules=True)
+        forms = forms or {}
+        allm = [m for ms, _ in ps["rules"] for m in ms]
+        disjoint = len(set(allm)) == len(allm)
+        p = lw.PostSelection(multi_rules=not (forms.get("single") and disjoint))
+        seq = list if forms.get("lists") else tuple
         for ms, ns in ps["rules"]:
-            p.add(tuple(ms), tuple(ns))
+            a = ms[0] if (forms.get("ints") and len(ms) == 1) else seq(ms)
+            b = ns[0] if (forms.get("ints") and len(ns) == 1) else seq(ns)
+            p.add(a, b)
         return p
     return FUNS[ps["fun"]]
 
@@ -96,7 +104,9 @@ class C05:
             "number (<= 3 photons incl. heralds in the quick tier) x expected mappings (single State, lists, outputs that are filtered "
             "away, none) x QuickSampler with photon_counting True and False; plus a malformed stream (wrong length, negative entry, "
             "unequal photon numbers, empty input list, missing key in expected, rule on a mode out of range, post-selection that removes "
-            "everything). Non-trivial = Analyzer returned >= 2 outputs for >= 2 photons in total, or a heralded / post-selected / lossy "
+            "everything); histories on the answering Analyzer / QuickSampler (other requests first, rejected requests first, created before "
+            "the circuit was completed, re-pointed / re-configured with the setters, defaults of a discarded object edited), API forms (single "
+            "State, bare ints / lists / tuples in rules, multi_rules on/off, expected mapping with extra keys). Non-trivial = Analyzer returned >= 2 outputs for >= 2 photons in total, or a heralded / post-selected / lossy "
             "configuration; distinct = distinct JSON")
     COQ_TARGETS = ["theories/Exec/RunFock.vo"]
     CHUNK = 15
@@ -245,6 +255,23 @@ class C05:
                         exp.append([s, {"many": vals}])
             case = dict(kind="ok", variant=variant, prog=prog, cid=cid, psel=psel, inputs=inputs, expected=exp,
                         qins=inputs[:2] if rng.random() < 0.3 else inputs[:1])
+            # histories on the ONE Analyzer / QuickSampler that answers (the observed call is the last one) and API forms
+            #   Analyzer: twice (answered another request - other photon number, other post-selection, with an expected
+            #   mapping - first), exc (two rejected requests first), early (created and used as soon as the circuit object
+            #   exists, the program then edits the circuit in place), setter (created for another circuit, re-pointed)
+            #   QuickSampler: twice (read with the other detector mode and no post-selection first, then re-configured
+            #   with the setters), exc (a post-selection that removes everything first: failing read), early, setters
+            #   (created with defaults, everything assigned afterwards)
+            case["ahist"] = [None, "twice", "exc", "early", "setter", "twice"][i % 6]
+            case["qhist"] = [None, "twice", "exc", "early", "setters"][i % 5]
+            case["adecoy"] = fg.gen_state(rng, m, photons + 1 if photons == 0 else photons - 1)
+            case["forms"] = dict(ints=rng.random() < 0.4, lists=rng.random() < 0.3, single=rng.random() < 0.4,
+                                 bare=rng.random() < 0.5)
+            if exp is not None and rng.random() < 0.15:
+                # the expected mapping may cover more inputs than are analysed
+                extra = fg.gen_state(rng, m, photons)
+                if extra not in [e[0] for e in exp] and extra not in inputs:
+                    exp.append([extra, {"one": fg.gen_state(rng, m, photons)}])
             if i % 7 == 6:
                 self._malform(rng, case, m, photons)
             cases.append(case)
@@ -286,13 +313,49 @@ class C05:
         _, pool = cg.run_impl(c["prog"])
         return pool[c["cid"]]
 
-    def _analyze(self, circ, c):
-        a = emulator.Analyzer(circ)
-        a.post_selection = mk_psel(c["psel"])
-        ins = [lw.State(list(s)) for s in c["inputs"]]
+    def _analyze(self, circ, c, early=None):
+        forms = c.get("forms") or {}
+        hist = c.get("ahist")
+        # a default-constructed Analyzer whose default post-selection object is edited (if it can be) and thrown away
+        try:
+            d0 = emulator.Analyzer(circ)
+            if hasattr(d0.post_selection, "add"):
+                d0.post_selection.add(0, 7)
+        except Exception:  # noqa: BLE001
+            pass
+        if early is not None:
+            a = early
+        elif hist == "setter":
+            other = lw.Circuit(circ.input_modes + 1)
+            other.bs(0)
+            a = emulator.Analyzer(other)
+            try:
+                a.analyze(lw.State([1] + [0] * circ.input_modes))
+            except Exception:  # noqa: BLE001
+                pass
+            a.circuit = circ
+        else:
+            a = emulator.Analyzer(circ)
         with warnings.catch_warnings():
             warnings.simplefilter("ignore")
-            res = a.analyze(ins, mk_expected(c["expected"]))
+            if hist == "twice" and c.get("adecoy") is not None:
+                try:
+                    d = lw.State(list(c["adecoy"]))
+                    a.post_selection = None if c["psel"] is not None else mk_psel(dict(rules=[[[0], [0, 1, 2, 3]]]))
+                    a.analyze([d], {d: d})
+                except Exception:  # noqa: BLE001
+                    pass
+            elif hist == "exc" and c["inputs"]:
+                for bad in ([lw.State(list(c["inputs"][0]) + [0])],
+                            [lw.State(list(c["inputs"][0])), lw.State([sum(c["inputs"][0]) + 1] + [0] * (len(c["inputs"][0]) - 1))],
+                            [lw.State(list(c["inputs"][0])), lw.State([sum(c["inputs"][0])] + [0] * len(c["inputs"][0]))]):
+                    try:
+                        a.analyze(bad)
+                    except Exception:  # noqa: BLE001
+                        pass
+            a.post_selection = mk_psel(c["psel"], forms)
+            ins = [lw.State(list(s)) for s in c["inputs"]]
+            res = a.analyze(ins[0] if (len(ins) == 1 and forms.get("bare")) else ins, mk_expected(c["expected"]))
         arr = np.asarray(res.array)
         if hasattr(res, "error_rate"):
             er = float(res.error_rate)
@@ -301,7 +364,24 @@ class C05:
             er = []
         return [[list(s) for s in res.outputs], [[float(x) for x in row] for row in arr], float(res.performance), er]
 
-    def _quick(self, circ, q, pc, psel):
+    def _quick(self, circ, q, pc, psel, c=None, early=None, pre=None):
+        c = c or {}
+        forms = c.get("forms") or {}
+        hist = c.get("qhist")
+        # a default-constructed QuickSampler whose defaults are changed in place and which is thrown away
+        try:
+            d0 = emulator.QuickSampler(circ, lw.State(list(q)))
+            if hasattr(d0.post_select, "add"):
+                d0.post_select.add(0, 7)
+            d0.photon_counting = False
+        except Exception:  # noqa: BLE001
+            pass
+        if early is not None:
+            # created with the final settings before the circuit was completed: only what no longer fits is re-assigned
+            qs = early
+            if list(qs.input_state) != list(q) or len(q) != circ.input_modes:
+                qs.input_state = lw.State(list(q))
+            return [[list(k), float(v)] for k, v in qs.probability_distribution.items()]
         if psel is not None and "rules" in psel and len(psel["rules"]) >= 1 and (len(psel["rules"]) + len(q) + int(pc)) % 2 == 0:
             # history: the sampler is first read with all rules but the last, the last rule is then added IN PLACE
             # to the attached PostSelection object - the distribution must be the conditioned Sampler
@@ -317,13 +397,81 @@ class C05:
             ms, ns = psel["rules"][-1]
             p.add(tuple(ms), tuple(ns))
             return [[list(k), float(v)] for k, v in qs.probability_distribution.items()]
-        qs = emulator.QuickSampler(circ, lw.State(list(q)), photon_counting=pc, post_select=mk_psel(psel))
+        if hist in ("twice", "exc", "setters"):
+            if hist == "setters":
+                qs = emulator.QuickSampler(circ, lw.State(list(q)))
+            elif hist == "twice":
+                # only the detector mode differs from the final configuration (same post-selection object throughout)
+                qs = emulator.QuickSampler(circ, lw.State(list(q)), photon_counting=not pc, post_select=mk_psel(psel, forms))
+            else:
+                # the real configuration is read first, then a post-selection that accepts nothing is attached:
+                # both reads in that configuration must fail (there is no distribution to report)
+                qs = emulator.QuickSampler(circ, lw.State(list(q)), photon_counting=pc, post_select=mk_psel(psel, forms))
+                try:
+                    qs.probability_distribution  # noqa: B018
+                except Exception:  # noqa: BLE001
+                    pass
+                qs.post_select = FUNS["never"]
+            if hist != "setters":
+                for _ in range(2):
+                    try:
+                        qs.probability_distribution  # noqa: B018
+                        if pre is not None and hist == "exc":
+                            pre.append("ok")
+                    except Exception:  # noqa: BLE001
+                        pass
+            if hist != "twice":
+                qs.post_select = mk_psel(psel, forms)
+            qs.photon_counting = pc
+            return [[list(k), float(v)] for k, v in qs.probability_distribution.items()]
+        qs = emulator.QuickSampler(circ, lw.State(list(q)), photon_counting=pc, post_select=mk_psel(psel, forms))
         return [[list(k), float(v)] for k, v in qs.probability_distribution.items()]
 
     def impl(self, c):
-        circ = self._circuit(c)
-        an = guard(lambda: self._analyze(circ, c))
-        qs = [[guard(lambda q=q, pc=pc: self._quick(circ, q, pc, c["psel"])) for pc in (True, False)] for q in c["qins"]]
+        early = {}
+
+        def on_step(pool, op, out, before):
+            if not early and op[0] in ("new", "unitary", "copy", "plus") and op[1] == c["cid"] and c["cid"] in pool:
+                early["seen"] = True
+                circ0 = pool[c["cid"]]
+                m0 = circ0.input_modes
+                if c.get("ahist") == "early":
+                    try:
+                        early["an"] = emulator.Analyzer(circ0)
+                        early["an"].analyze(lw.State([1] + [0] * (m0 - 1)))
+                    except Exception:  # noqa: BLE001
+                        pass
+                if c.get("qhist") == "early":
+                    for qi, q in enumerate(c["qins"]):
+                        for pc in (True, False):
+                            try:
+                                fits = len(q) == m0 and all(isinstance(x, int) and x >= 0 for x in q)
+                                qs = emulator.QuickSampler(circ0, lw.State(list(q) if fits else [1] + [0] * (m0 - 1)),
+                                                           photon_counting=pc, post_select=mk_psel(c["psel"], c.get("forms")))
+                                try:
+                                    qs.probability_distribution  # noqa: B018
+                                except Exception:  # noqa: BLE001
+                                    pass
+                                early[(qi, pc)] = qs
+                            except Exception:  # noqa: BLE001
+                                pass
+
+        if c.get("ahist") == "early" or c.get("qhist") == "early":
+            _, pool = cg.run_impl(c["prog"], on_step=on_step, want=lambda op: [])
+            circ = pool[c["cid"]]
+        else:
+            circ = self._circuit(c)
+        an = guard(lambda: self._analyze(circ, c, early.get("an")))
+        qs = []
+        for qi, q in enumerate(c["qins"]):
+            pair = []
+            for pc in (True, False):
+                pre = []
+                r = guard(lambda q=q, pc=pc, qi=qi, pre=pre: self._quick(circ, q, pc, c["psel"], c, early.get((qi, pc)), pre))
+                if pre:
+                    r["pre"] = pre
+                pair.append(r)
+            qs.append(pair)
         return {"an": an, "qs": qs}
 
     # ------------------------------------------------------------------ model
@@ -563,6 +711,8 @@ class C05:
                     continue
                 tot = sum(cond.values())
                 tag = f"QuickSampler(input {q}, photon_counting={pc})"
+                if r.get("pre"):
+                    return f"{tag} returned a distribution while a post-selection that accepts no state was attached"
                 if "ok" not in r:
                     if raises and r["err"] == "IndexError":
                         continue
